@@ -377,6 +377,7 @@ inductive Ev
   | removeEndpoint (c : Inst) (name : Str)
   | dropTok (host : Str) (c : Inst)      -- clean-up goroutine of the token cache of (host, c): needs c stopped
   | dropSar (host : Str) (c : Inst)
+  | dropStopped                          -- every clean-up goroutine of a stopped cluster has run
   | evictTok (cid : CacheId) (tok : Str) -- gc of the expiring cache: an entry disappears
   | evictSar (cid : CacheId) (spec : Spec)  -- LRU eviction
 deriving DecidableEq, Repr
@@ -399,6 +400,9 @@ def evStep (s : State) : Ev → State
     if c ∈ s.stopped then { s with tokMap := s.tokMap.filter (fun kv => decide (kv.1 ≠ ⟨host, c⟩)) } else s
   | .dropSar host c =>
     if c ∈ s.stopped then { s with sarMap := s.sarMap.filter (fun kv => decide (kv.1 ≠ ⟨host, c⟩)) } else s
+  | .dropStopped =>
+    { s with tokMap := s.tokMap.filter (fun kv => !decide (kv.1.inst ∈ s.stopped)),
+             sarMap := s.sarMap.filter (fun kv => !decide (kv.1.inst ∈ s.stopped)) }
   | .evictTok cid tok =>
     { s with tokEntries := s.tokEntries.filter (fun x => !(decide (x.1 = cid) && decide (x.2.1 = tok))) }
   | .evictSar cid spec =>
